@@ -244,6 +244,11 @@ FRAME = re.compile(r"#\d+ 0x[0-9a-f]+ in (.+?) (/\S+?):(\d+)")
 
 def sanitizer_signature(pid, text):
     """stable signature of a sanitizer report: kind + first frame inside the repository"""
+    # One root cause gets one name wherever it surfaces: the caching wrapper reports the wrapped class's type flag (open
+    # finding C13:pducacher-masquerade), so library code that downcasts on that flag trips UBSan's vptr check on a
+    # PDUCacher<X> object. UBSan names the dynamic type in the report.
+    if "downcast of address" in text and re.search(r"object is of type 'Tins::PDUCacher<", text):
+        return "%s:pducacher-masquerade:flag-based-downcast-of-the-wrapper" % pid
     kind = None
     m = UB_LINE.search(text)
     m2 = SAN_KIND.search(text)
